@@ -214,3 +214,10 @@ Proof.
   unfold gen_setupAspectRatio_closure_1. now rewrite (callback_early_reorder table ps d idx i Hi).
 Qed.
 Print Assumptions C11_gen_phase_callbacks.
+
+(* ---- stores into per-phase histories inside loops over the phases --------------------------------------------- *)
+(* every such store in KWNBase.py / KWNEuler.py addresses the row of the loop's own phase (a store without the phase
+   index would overwrite the rows of the phases listed before it) *)
+Theorem C11_gen_phase_stores : forallb (fun b : bool => b) gen_phase_stores = true /\ gen_phase_stores <> [].
+Proof. split; [reflexivity | discriminate]. Qed.
+Print Assumptions C11_gen_phase_stores.
